@@ -147,6 +147,14 @@ func SliceIndexes(s []int, n int) []int {
 	if n <= start {
 		return nil
 	}
+	// a step beyond the length selects the start element only; bounding it keeps the index arithmetic
+	// of this reference inside the int range for steps near the int limits
+	if step > n {
+		step = n + 1
+	}
+	if step < -n {
+		step = -n - 1
+	}
 	var out []int
 	if step > 0 {
 		if n < end {
@@ -325,7 +333,7 @@ type Eq struct {
 	Op    string `json:"op"` // const, path, eq neq lt gt lte gte and or not add sub mul div in empty has exists rx length count match search
 	L     *Eq    `json:"l,omitempty"`
 	R     *Eq    `json:"r,omitempty"`
-	Const any    `json:"c,omitempty"` // nil bool int64 float64 string []any ; Regex for rx
+	Const any    `json:"c,omitempty"`  // nil bool int64 float64 string []any ; Regex for rx
 	Kind  string `json:"ck,omitempty"` // for const: nil bool int float string list regex nothing
 	Path  Path   `json:"p,omitempty"`
 }
